@@ -927,6 +927,9 @@ func (x *c16Runner) directionA(k *c16Case) {
 		}
 		split := isSplit[id]
 		jt, err := c16CanonText(raw, false)
+		if split {
+			jt, err = c16CanonTopOrdered(raw)
+		}
 		if err != nil {
 			continue
 		}
@@ -1148,6 +1151,16 @@ func (x *c16Runner) directionB(k *c16Case, params []c16Field, bound map[string]*
 			What: "MRO call text -> invocation JSON loses information: " + msg, Input: k.input(), Impl: string(b)})
 		return
 	}
+	compiles := false
+	c16Recover(func() {
+		_, _, _, cerr := syntax.ParseSourceBytes([]byte(k.Src), "call.mro", k.MroPaths, false)
+		compiles = cerr == nil
+	})
+	if compiles {
+		r.hist("B_call_compiles")
+	} else {
+		r.hist("B_call_does_not_compile")
+	}
 	// model: encode on the expression the real parser built (struct flags included)
 	if ast, perr := new(syntax.Parser).UncheckedParseIncludes([]byte(k.Src), "", k.MroPaths); perr == nil && ast.Call != nil {
 		_, lookup, _ := core.GetCallableFrom(k.Sig.Callable, "decl.mro", k.MroPaths)
@@ -1174,23 +1187,25 @@ func (x *c16Runner) directionB(k *c16Case, params []c16Field, bound map[string]*
 						Impl:  realJ, Model: rep, Broken: "correspondence C16.encode (Martian.Invocation.encode)"})
 				}
 			})
-			// well-typedness of the literal as the model defines it (non-vacuity of convert_encode)
-			if callable != nil {
+			// the hypothesis of convert_encode / binding_roundtrip (wt at the parameter's type for a plain
+			// binding, splitOperandOk for a split one) must HOLD on every binding of a call the real
+			// compiler accepts: otherwise the theorem does not cover an input the runs cover
+			if callable != nil && compiles {
 				for _, p := range callable.GetInParams().List {
 					if p.GetId() != b.Id {
 						continue
 					}
-					tid := p.GetTname()
-					if s, ok := b.Exp.(*syntax.SplitExp); ok {
-						if _, isArr := s.Value.(*syntax.ArrayExp); isArr {
-							tid.ArrayDim++
-						} else if tid.MapDim == 0 {
-							tid.MapDim, tid.ArrayDim = tid.ArrayDim+1, 0
+					tt := c16TyTok(lookup, p.GetTname(), 0)
+					at := c16ArgTok(b.Exp)
+					pid := b.Id
+					x.ask([]string{"C16.bindok", tt, at}, func(rep string) {
+						r.hist("B_model_bindok_" + strings.ReplaceAll(rep, " ", "_"))
+						if rep != "true true" {
+							r.violate(Violation{Kind: "correspondence", Key: kk.key("B-hypothesis-wt"),
+								What:   "the typing hypothesis of binding_roundtrip (wt / splitOperandOk, intsOk) is false on a binding of a call the real compiler accepts: " + rep,
+								Input:  map[string]interface{}{"param": pid, "type": tt, "binding": at, "case": kk.input()},
+								Broken: "binding_roundtrip / convert_encode (hypothesis wt / splitOperandOk)"})
 						}
-					}
-					tt := c16TyTok(lookup, tid, 0)
-					x.ask([]string{"C16.wt", tt, et}, func(rep string) {
-						r.hist("B_model_wt_" + strings.ReplaceAll(rep, " ", "_"))
 					})
 				}
 			}
@@ -1318,11 +1333,27 @@ func (x *c16Runner) genCase(sig *c16Sig) (*c16Case, map[string]*c16Val) {
 		}
 		bound[p.Name] = v
 		js := v.JSON()
+		written := ""
 		if split {
-			js = `{"split": ` + js + `}`
+			inner := js
+			js = `{"split": ` + inner + `}`
 			splits = append(splits, p.Name)
+			// the key is matched the way encoding/json matches a struct field: case-folded
+			// (incl. U+017F), and of several matching members the LAST one wins
+			switch c.Rng.Intn(12) {
+			case 0:
+				written = `{"` + []string{"Split", "SPLIT", "sPlIt", "ſplit", "\u0073plit"}[c.Rng.Intn(5)] + `": ` + inner + `}`
+				x.r.hist("case_split_key_folded")
+			case 1:
+				written = `{"split": ` + []string{"null", "[]", "3", `{"x": 1}`}[c.Rng.Intn(4)] + `, "` +
+					[]string{"split", "Split", "SPLIT"}[c.Rng.Intn(3)] + `": ` + inner + `, "other": 1}`
+				x.r.hist("case_split_key_duplicated")
+			}
 		}
-		args = append(args, fmt.Sprintf("%q: %s", p.Name, js))
+		if written == "" {
+			written = js
+		}
+		args = append(args, fmt.Sprintf("%q: %s", p.Name, written))
 		if t, err := c16CanonText([]byte(js), true); err == nil {
 			k.Expect[p.Name] = t
 		} else {
